@@ -110,6 +110,10 @@ def cases(tier, seed, prep=None):
     # monitoring must stop with the stop, not with the eventual loss of the connection
     for i in range(24 if tier == "quick" else 600):
         out.append({"seed": seed * 1000003 + 1660000 + i, "kind": "close-lingering", "bulk": True})
+    # the Leader's host is suspended for a while (or its clock steps forward, or the reactor is blocked): when it wakes
+    # up its interval timer is served late; the peer still answers every ping at once and must not be dropped
+    for i in range(30 if tier == "quick" else 800):
+        out.append({"seed": seed * 1000003 + 1670000 + i, "kind": "responsive-suspend", "sleep": [0.6, 0.95, 1.5, 3.0, 10.0][i % 5], "nsleeps": 1 + i % 3})
     return out
 
 
@@ -226,6 +230,7 @@ def run_case(spec):
                 break
     paused_app = None
     lingering = {}
+    suspended = [0]
     if kind == "responsive-paused":
         # the Leader's own application stops reading one of its subchannels for a while (back-pressure towards
         # the peer): the Follower keeps answering every ping, the Leader just does not read the answers
@@ -286,6 +291,23 @@ def run_case(spec):
                 run_until(r.seconds() + 0.25 * x)
         horizon = r.seconds() + x * rng.choice([8, 20])
         run_until(horizon)
+    elif kind == "responsive-suspend":
+        kind = "responsive"
+        lat["mode"] = "fixed"
+        lat["d"] = 0.0
+        for _ in range(spec["nsleeps"]):
+            run_until(r.seconds() + rng.random() * 3 * x)
+            # wait for a moment at which nothing is in flight: right after a pong has been read
+            n0 = len([1 for e in _events if e[1] is lm and e[2] == "pong"])
+            t_lim = r.seconds() + 4 * x
+            while len([1 for e in _events if e[1] is lm and e[2] == "pong"]) == n0 and r.seconds() < t_lim and dp.both_connected():
+                if not sch.step():
+                    break
+            if not dp.both_connected():
+                break
+            suspended[0] += 1
+            r.rightNow += spec["sleep"] * x          # nothing runs meanwhile; every timer that fell due is served late
+        run_until(r.seconds() + 6 * x)
     elif kind == "close-lingering":
         lingering = {"unsent": 0, "stopped_at": None}
         run_until(t_conn + rng.random() * 3 * x)
@@ -441,7 +463,7 @@ def run_case(spec):
     return {"violations": viol, "nontrivial": nontrivial,
             "counters": {"pongs": len(pongs), "pings": len([1 for (t, w, e) in ev_l if w == "ping"]), "silent_cases_dropped": silent_dropped,
                          "responsive_intervals": responsive_intervals, "drops": len(drops), "cuts": cuts, "kind_" + kind: 1, "repeated_silent_episodes": len(episodes) if (kind == "silent" and again) else 0,
-                         "leader_app_paused_cases": int(paused_app is not None),
+                         "leader_app_paused_cases": int(paused_app is not None), "suspensions": suspended[0],
                          "stops_with_lingering_connection": int(spec["kind"] == "close-lingering" and bool(lingering.get("unsent")) and lingering.get("state_after") == "STOPPING"),
                          "bulk_cases": int(bulk is not None), "bulk_bytes_written": bulk.written if bulk else 0,
                          "pings_sent_while_outbound_paused": paused_pings[0]},
